@@ -7,8 +7,9 @@ From DV Require Import Common.Res Common.Str Stack.Model.
 Import ListNotations.
 Local Open Scope nat_scope.
 
-(** (exception class, shape, dtype code of the returned array / image, file ids afterwards, dirty flag) *)
-Definition obs_item := (option err * option (list nat) * option nat * list nat * bool)%type.
+(** (exception class, shape, dtype code of the returned array / image, pixdim[4] of a returned image,
+    phase code of its dim_info (0 unset, 1 'ROW', 2 other), file ids afterwards, dirty flag) *)
+Definition obs_item := (option err * option (list nat) * option nat * option Q * option nat * list nat * bool)%type.
 
 Record case := mkcase {
   c_time : bool;
@@ -31,6 +32,18 @@ Definition shape_of_outcome (o : outcome) : option (list nat) :=
   | _ => None
   end.
 
+(** pixdim[4]: the single RepetitionTime, nibabel's default 1 when it is not set *)
+Definition pixdim4_of_outcome (o : outcome) : option Q :=
+  match o with
+  | OutNifti n => Some (match o_tr n with Some x => this x | None => 1%Q end)
+  | _ => None
+  end.
+Definition phase_of_outcome (o : outcome) : option nat :=
+  match o with
+  | OutNifti n => Some (match o_phase n with None => 0 | Some true => 1 | Some false => 2 end)
+  | _ => None
+  end.
+
 Definition dtype_of_outcome (o : outcome) : option nat :=
   match o with
   | OutData _ _ d => Some d
@@ -43,7 +56,7 @@ Definition dtype_of_outcome (o : outcome) : option nat :=
     result classes, shapes and dirty flags are compared. *)
 Definition item_match (ord : bool) (m : res outcome * (list nat * bool)) (o : obs_item) : bool :=
   let '(r, (mids, mdirty)) := m in
-  let '(oerr, oshape, odtype, oids, odirty) := o in
+  let '(oerr, oshape, odtype, opix, ophase, oids, odirty) := o in
   (negb ord || nats_eqb mids oids) && Bool.eqb mdirty odirty &&
   match r, oerr with
   | Ok out, None =>
@@ -54,6 +67,14 @@ Definition item_match (ord : bool) (m : res outcome * (list nat * bool)) (o : ob
       match odtype with
       | None => true
       | Some d => match dtype_of_outcome out with Some d' => Nat.eqb d d' | None => false end
+      end &&
+      match opix with
+      | None => true
+      | Some x => match pixdim4_of_outcome out with Some x' => Qeq_bool x x' | None => false end
+      end &&
+      match ophase with
+      | None => true
+      | Some c => match phase_of_outcome out with Some c' => Nat.eqb c c' | None => false end
       end
   | Err e, Some e' => err_eqb e e'
   | _, _ => false
@@ -79,10 +100,10 @@ Definition check (c : case) : bool := match_all true (model_trace c) (c_obs c).
 Definition show_item (m : res outcome * (list nat * bool)) :=
   let '(r, s) := m in
   (match r with
-   | Ok (OutShape sh) => (None, Some sh, None)
-   | Ok (OutData _ sh d) => (None, Some sh, Some d)
-   | Ok (OutNifti n) => (None, None, Some (o_dtype n))
-   | Ok _ => (None, None, None)
-   | Err e => (Some e, None, None)
+   | Ok (OutShape sh) => (None, Some sh, None, None, None)
+   | Ok (OutData _ sh d) => (None, Some sh, Some d, None, None)
+   | Ok (OutNifti n) => (None, None, Some (o_dtype n), pixdim4_of_outcome (OutNifti n), phase_of_outcome (OutNifti n))
+   | Ok _ => (None, None, None, None, None)
+   | Err e => (Some e, None, None, None, None)
    end, s).
 Definition show (c : case) := map show_item (model_trace c).
